@@ -285,11 +285,11 @@ func c07MatchSpec(c *Ctx, fn *ssa.Function, nf, nt int) DTXSpec {
 				case env.Eq(mt, K("equals")):
 					ok = env.Eq(S(t), S(v))
 				case env.Eq(mt, K("contains")) || env.Eq(mt, K("")):
-					ok = env.Bool("strings.Contains(" + v + "," + t + ")")
+					ok = env.Pred("strings.Contains", v, t)
 				case env.Eq(mt, K("starts-with")):
-					ok = env.Bool("strings.HasPrefix(" + v + "," + t + ")")
+					ok = env.Pred("strings.HasPrefix", v, t)
 				case env.Eq(mt, K("ends-with")):
-					ok = env.Bool("strings.HasSuffix(" + v + "," + t + ")")
+					ok = env.Pred("strings.HasSuffix", v, t)
 				default:
 					anyStrictErr = true
 					return rErr
@@ -769,11 +769,11 @@ func c07LayerText(c *Ctx, tmFn *ssa.Function) DTXSpec {
 			case env.Eq(mt, K("equals")):
 				ok = env.Eq(S("txt.Text"), S("field.Value"))
 			case env.Eq(mt, K("contains")) || env.Eq(mt, K("")):
-				ok = env.Bool("strings.Contains(field.Value,txt.Text)")
+				ok = env.Pred("strings.Contains", "field.Value", "txt.Text")
 			case env.Eq(mt, K("starts-with")):
-				ok = env.Bool("strings.HasPrefix(field.Value,txt.Text)")
+				ok = env.Pred("strings.HasPrefix", "field.Value", "txt.Text")
 			case env.Eq(mt, K("ends-with")):
-				ok = env.Bool("strings.HasSuffix(field.Value,txt.Text)")
+				ok = env.Pred("strings.HasSuffix", "field.Value", "txt.Text")
 			default:
 				return []string{"error"}, true
 			}
